@@ -294,12 +294,12 @@ func genC01Closure(t *rapid.T) c01Case {
 		names = append(names, pick(t, []string{"", "sub/", "a b/"}, "dir")+fmt.Sprintf("m%d.sysl", i))
 	}
 	foreign := map[string]string{
-		"d.yaml": pick(t, []string{"hello: world\n", "swagger: \"2.0\"\ninfo: {title: T, version: \"1\"}\npaths: {}\n", "openapi: 3.0.0\ninfo: {title: T, version: \"1\"}\npaths: {}\n", ":\n  - [", ""}, "yaml"),
-		"d.json": pick(t, []string{"{}", "{\"swagger\": \"2.0\", \"info\": {\"title\": \"T\", \"version\": \"1\"}, \"paths\": {}}", "[1,2", "null"}, "json"),
-		"m.pb": pick(t, []string{"", "\x0a\x00", "garbage\x00\x01", "\xff\xff\xff\xff"}, "pb"),
-		"m.textpb": pick(t, []string{"", "apps: {key: \"A\" value: {name: {part: \"A\"}}}", "apps {", "garbage {{{"}, "textpb"),
+		"d.yaml":    pick(t, []string{"hello: world\n", "swagger: \"2.0\"\ninfo: {title: T, version: \"1\"}\npaths: {}\n", "openapi: 3.0.0\ninfo: {title: T, version: \"1\"}\npaths: {}\n", ":\n  - [", ""}, "yaml"),
+		"d.json":    pick(t, []string{"{}", "{\"swagger\": \"2.0\", \"info\": {\"title\": \"T\", \"version\": \"1\"}, \"paths\": {}}", "[1,2", "null"}, "json"),
+		"m.pb":      pick(t, []string{"", "\x0a\x00", "garbage\x00\x01", "\xff\xff\xff\xff"}, "pb"),
+		"m.textpb":  pick(t, []string{"", "apps: {key: \"A\" value: {name: {part: \"A\"}}}", "apps {", "garbage {{{"}, "textpb"),
 		"m.pb.json": pick(t, []string{"{}", "{\"apps\": {\"A\": {\"name\": {\"part\": [\"A\"]}}}}", "{\"apps\": 3}", "["}, "pbjson"),
-		"x.xsd": "<xs:schema xmlns:xs=\"http://www.w3.org/2001/XMLSchema\"></xs:schema>",
+		"x.xsd":     "<xs:schema xmlns:xs=\"http://www.w3.org/2001/XMLSchema\"></xs:schema>",
 	}
 	fnames := []string{"d.yaml", "d.json", "m.pb", "m.textpb", "m.pb.json", "x.xsd"}
 	for i, nm := range names {
